@@ -15,13 +15,15 @@ META = dict(
                "solve_cholesky", "mem2_newton_solver (convergence exit)", "estimators.mem.numba_mem"],
     bounds=dict(quick="Jacobian identity on uniform grids N in {3,4,6} and with fully symbolic twiddle factors and "
                       "increments (every grid) for N=3, on every argmin path; Cholesky solve for symbolic symmetric 2x2 "
-                      "and 3x3 systems; rotation by every k and mirror on N in {4,6} (exact algebraic cos/sin); "
-                      "convergence exit of the Newton solver",
-                thorough="Jacobian N=8, symbolic grid N=4; rotation N=8"),
+                      "systems; rotation by every k and mirror on N=4, by k in {1,3} and mirror on N=6 (exact algebraic "
+                      "cos/sin); convergence exit of the Newton solver",
+                thorough="Jacobian N=8, symbolic grid N=4; non-convergence exit N=4"),
     outside=["that Newton / scipy converge for resolvable von-Mises mixtures and agree to 0.01 (convergence of an "
              "iteration on transcendental equations; no delta-complete solver): not applicable", "the MEM "
              "discretisation bound", "equivariance of a complete Newton run (follows from the equivariance of its "
-             "ingredients proved here only if the 4x4 linear solve is equivariant; not proved)", "float64 rounding"],
+             "ingredients proved here only if the 4x4 linear solve is equivariant; not proved)", "float64 rounding",
+             "3x3 and 4x4 symbolic Cholesky, rotations k in {2,4,5} on N=6 and all of N=8: no solver verdict within "
+             "the time limits (z3 unknown on path conditions mixing multipliers with sqrt atoms)"],
     trusted_base=["symx engine", "own symbolic differentiation of z3 terms (rules for + - * / and exp)",
                   "exp(t) replaced by one positive atom per distinct argument; rational identities decided after "
                   "clearing denominators (sum-of-monomials normal form != 0 is unsat)"],
@@ -275,13 +277,22 @@ def case_equivariance(ctx, N, k, mirror=False):
     D = M2.mem2_directional_distribution(lam, inc, tw)
     Dr = M2.mem2_directional_distribution(lr, inc, tw)
     perm = [((-j) % N) if mirror else ((j - k) % N) for j in range(N)]
-    # inner products agree: lambda_rot . twiddle_j == lambda . twiddle_perm(j)
+    # inner products agree: lambda_rot . twiddle_j == lambda . twiddle_perm(j). They are built exactly as the code
+    # builds them (same accumulation order), so that the terms inside D / Dr can be replaced by fresh variables.
+    def inner(l):
+        acc = M2.np.zeros(N)
+        for jj in range(4):
+            acc = acc + l[jj] * tw[jj, :]
+        return acc
+    ip, ipr = inner(lam), inner(lr)
+    lemmas = []
     for j in range(N):
-        ipr = lr[0] * tw[0, j] + lr[1] * tw[1, j] + lr[2] * tw[2, j] + lr[3] * tw[3, j]
-        ip = lam[0] * tw[0, perm[j]] + lam[1] * tw[1, perm[j]] + lam[2] * tw[2, perm[j]] + lam[3] * tw[3, perm[j]]
-        ctx.check(ctx.eq(ipr, ip), "D-EQV.inner", info=dict(j=j, N=N, k=k, mirror=mirror), timeout=60000)
+        ok = ctx.check(ctx.eq(ipr[j], ip[perm[j]]), "D-EQV.inner", info=dict(j=j, N=N, k=k, mirror=mirror), timeout=60000)
+        if ok:
+            lemmas.append(ctx.eq(ipr[j], ip[perm[j]]))
     for j in range(N):
-        ctx.check(ctx.eq(Dr[j], D[perm[j]]), "D-EQV.distribution", info=dict(j=j), timeout=60000)
+        ctx.check(ctx.eq(Dr[j], D[perm[j]]), "D-EQV.distribution", info=dict(j=j), timeout=60000,
+                  abstract=list(ip) + list(ipr), lemmas=lemmas)
     ctx.reach("D-EQV.guess")
 
 
@@ -413,12 +424,13 @@ def cases(tier):
     if not q:
         add("case_jacobian", "jac_symgrid_N4", N=4, symbolic_grid=True, opts=dict(weight=300, case_timeout_s=3000))
     add("case_cholesky", "cholesky_2", n=2, opts=dict(weight=20))
-    if not q:
-        add("case_cholesky", "cholesky_3", n=3, opts=dict(weight=60, case_timeout_s=1800))
-    for N in ([4, 6] if q else [4, 6, 8]):
+    # not registered because they end without a verdict (solver unknown / wall-clock limit, measured end-to-end in the
+    # thorough tier): cholesky_3 (3x3 symbolic factorisation, > 1800 s), eqv_N6_k{2,4,5} and every eqv_N8 case (path
+    # conditions mixing the multipliers with sqrt(3) / sqrt(2) atoms: z3 unknown after 60 s per claim)
+    for N in [4, 6]:
         for k in range(1, N):
-            if N == 6 and k in (2, 4, 5) and q:
-                continue     # z3 needs > 200 s on the sqrt(3) path conditions of these rotations: thorough tier only
+            if N == 6 and k in (2, 4, 5):
+                continue
             add("case_equivariance", f"eqv_N{N}_k{k}", N=N, k=k, opts=dict(trig_mode="algebraic", weight=N * 5, case_timeout_s=280 if q else 2400))
         add("case_equivariance", f"eqv_N{N}_mirror", N=N, k=0, mirror=True, opts=dict(trig_mode="algebraic", weight=N * 5))
     add("case_newton_convergence_exit", "newton_converged_N4", N=4, opts=dict(weight=40))
